@@ -192,6 +192,7 @@ func (c *Conn) HandleData() {
 			c.numBuffered.Dec(1)
 			action = "write"
 			log.Tracef("conn %s HandleData: writing %s", c.key, buf)
+			verifSchedPoint("handledata-received", buf)
 			c.keepSafe.Add(buf)
 			n, err := c.Write(buf)
 			if err != nil {
